@@ -817,13 +817,13 @@ def _guarded_in_action(action, node, comp, others=()):
 
 
 def check(ctx):
-    check_frontend_partial(ctx)
-    check_shadowing(ctx)
-    check_indexing(ctx)
-    check_visitors(ctx)
-    check_raises(ctx)
-    check_tokeninfo(ctx)
-    check_nullable_loops(ctx)
-    check_deactivate(ctx)
+    ctx.run(check_frontend_partial)
+    ctx.run(check_shadowing)
+    ctx.run(check_indexing)
+    ctx.run(check_visitors)
+    ctx.run(check_raises)
+    ctx.run(check_tokeninfo)
+    ctx.run(check_nullable_loops)
+    ctx.run(check_deactivate)
     if ctx.tier == "thorough":
-        check_reference(ctx)
+        ctx.run(check_reference)
